@@ -1440,6 +1440,7 @@ fn drive_run(r: &mut StdRng, t: &mut Trace, fl: &str, regime: &str, len: usize) 
         };
         let Some(mut op) = op else { break };
         denone(&mut op, &sys);
+        time_passes(&sys.e, r, 3000);
         let ev = sys.step(&op);
         sh.apply(&op, &ev);
         // phases: grow until additions have been refused a few times, shrink for a while, grow again
